@@ -515,6 +515,8 @@ Lemma seek_inv rest ps d offset : Forall pkt_ok ps -> dec_inv rest (flat_exp ps)
   exists d', rle_seek (flat_ser ps ++ rest) d offset = Some d' /\ dec_inv rest (flat_exp ps) d' /\ rd_off d' = offset.
 Proof.
   intros P D R. unfold rle_seek.
+  replace (negb (rle_seek_restarts offset (rd_off d) =? 0)) with (offset <? rd_off d)
+    by (unfold rle_seek_restarts; destruct (offset <? rd_off d); reflexivity).
   set (d0 := if offset <? rd_off d then rle_dec_init (flat_ser ps ++ rest) else d).
   assert (D0 : dec_inv rest (flat_exp ps) d0 /\ rd_off d0 <= offset).
   { subst d0. destruct (Z.ltb_spec offset (rd_off d)).
